@@ -46,9 +46,18 @@ def sumFmt (f : Fmt) (size : Nat) : Fmt := ⟨f.signed, clog2 size + f.nword, f.
 def prodFmt (f : Fmt) (num : Nat) : Fmt := ⟨f.signed, num * f.nword, num * f.nfrac⟩
 def dotFmt (x y : Fmt) (k : Nat) : Fmt := ⟨x.signed || y.signed, clog2 k + x.nword + y.nword, x.nfrac + y.nfrac⟩
 
-/-- `cumprod` raw kernel: the `j`-th partial product is rescaled to the common fraction length `size·n_frac`. -/
+/-- fraction length of `cumprod`'s result: every partial product is held in one format, the `k`-th has `k·n_frac` fraction bits. -/
+def cumprodFrac (f : Fmt) (size : Nat) : Int := if 0 ≤ f.nfrac then size * f.nfrac else f.nfrac
+
+/-- format of `cumprod` (optimal sizing): the `k`-th partial product needs `k·n_word` bits plus its rescaling to the common
+fraction length; the maximum over `k = 1 … size` is at one of the two ends. -/
+def cumprodFmt (f : Fmt) (size : Nat) : Fmt :=
+  let F := cumprodFrac f size
+  ⟨f.signed, (max ((f.nword : Int) + F - f.nfrac) ((size : Int) * f.nword + F - size * f.nfrac)).toNat, F⟩
+
+/-- `cumprod` raw kernel: the `j`-th partial product is rescaled to the common fraction length. -/
 def cumprodCodes (f : Fmt) (size : Nat) (l : List Int) : List Int :=
-  (cumL (· * ·) l).zipIdx.map (fun (p : Int × Nat) => p.1 * 2 ^ ((size - (p.2 + 1)) * f.nfrac.toNat))
+  (cumL (· * ·) l).zipIdx.map (fun (p : Int × Nat) => p.1 * 2 ^ (cumprodFrac f size - ((p.2 + 1 : Nat) : Int) * f.nfrac).toNat)
 
 def dotL (a b : List Int) : Int := sumL (List.zipWith (· * ·) a b)
 
